@@ -4,6 +4,7 @@
 From Coq Require Import List Bool Arith.
 From GV Require Import Base.Outcome Base.AMap Model.GState Model.Creation Model.Query
      Model.Components Model.Scc Spec.ReachDef Spec.CompSpec Proofs.ReachOk Proofs.ComponentsOk Proofs.PartitionsOk Proofs.PartitionsTotalOk Proofs.SccOk Proofs.SccFullOk.
+From GV Require Import Spec.EdgeAdj Spec.History Proofs.WFDefs Proofs.HistoryOk Proofs.CompWF.
 Import ListNotations.
 
 Section C10.
@@ -183,3 +184,150 @@ Section C10.
     vec_ok_b g = true -> 1 <= k -> exists ps, bfs_equal_size_partitions g k = Ok ps.
   Proof. exact (equal_size_total (T:=T) (A:=A)). Qed.
 End C10.
+
+(* ======================================================================================
+   END TO END.  The executable coherence tests above (step_ok_b, step_total_b, wstep_ok_b,
+   vec_ok_b) and the symmetry / closedness hypotheses are CONSEQUENCES of the coherence
+   invariant WF of the twelve fields, which holds in every state reachable by any history of
+   mutations (C01) - in particular in every graph built by new_from_nodes_and_edges - and the
+   adjacency each loop reads is the one of the EDGE LIST (get_all_edges).  Hence, with no
+   per-case test left in the hypotheses: every component function RETURNS, and returns the
+   partition of the node list by the right reachability relation over the edge list. *)
+Section C10_end_to_end.
+  Context {T A : Type}.
+  Variable teqb : T -> T -> bool.
+  Variable tltb : T -> T -> bool.
+  Hypothesis teqb_spec : forall x y, teqb x y = true <-> x = y.
+  Hypothesis tltb_asym : forall x y, tltb x y = true -> tltb y x = false.
+  Hypothesis tltb_total : forall x y, tltb x y = false -> tltb y x = false -> x = y.
+  Notation gstate := (gstate T A).
+  Notation WF := (@WF T A teqb tltb).
+
+  (* every reachable state is coherent; every successfully built graph is reachable *)
+  Theorem C10_reachable_WF : forall s (g : gstate), reachable teqb tltb s g -> WF g.
+  Proof. exact (WF_reachable teqb tltb teqb_spec tltb_asym tltb_total). Qed.
+
+  Theorem C10_built_WF : forall ns es s (g : gstate),
+    new_from_nodes_and_edges teqb tltb ns es s = Ok g -> WF g.
+  Proof.
+    intros ns es s g H. apply (WF_reachable teqb tltb teqb_spec tltb_asym tltb_total s).
+    exact (new_from_reachable teqb tltb teqb_spec ns es s g H).
+  Qed.
+
+  (* ---- the per-case tests are theorems ---- *)
+  Theorem C10_tests_hold : forall (g : gstate), WF g ->
+    (forall u v, step teqb g u v <-> g_follow g u v) /\
+    adj_total teqb g /\
+    vec_ok_b g = true /\
+    (forall u w, succ_rel teqb g u w <-> g_follow g u w) /\
+    (directed (sp g) = true ->
+       (forall u v, wstep teqb g u v <-> (edge_rel g u v \/ edge_rel g v u)) /\
+       wstep_closed teqb g).
+  Proof. exact (tests_hold_wf teqb tltb teqb_spec tltb_total). Qed.
+
+  (* ---- breadth_first_search ---- *)
+  (* from every node of every coherent state the search RETURNS: x first, no node twice,
+     exactly the nodes reachable from x along stored edges of get_all_edges (against them
+     too on an undirected graph) *)
+  Theorem C10_bfs_wf : forall (g : gstate) x,
+    WF g -> In x (g_nodes g) ->
+    exists l, breadth_first_search teqb g x = Ok l /\
+              (exists t, l = x :: t) /\ NoDup l /\ (forall y, In y l <-> reach (g_follow g) x y).
+  Proof. exact (bfs_wf teqb tltb teqb_spec tltb_total). Qed.
+
+  Theorem C10_bfs_reachable : forall s (g : gstate) x,
+    reachable teqb tltb s g -> In x (g_nodes g) ->
+    exists l, breadth_first_search teqb g x = Ok l /\
+              (exists t, l = x :: t) /\ NoDup l /\ (forall y, In y l <-> reach (g_follow g) x y).
+  Proof. intros s g x R. exact (bfs_wf teqb tltb teqb_spec tltb_total g x (C10_reachable_WF s g R)). Qed.
+
+  (* ---- connected_components / number_of_connected_components / node_connected_component ---- *)
+  Theorem C10_connected_wf : forall (g : gstate),
+    WF g -> directed (sp g) = false ->
+    exists cs, connected_components teqb g = Ok cs /\
+               is_component_partition (g_nodes g) (g_connected g) cs.
+  Proof. exact (connected_components_wf teqb tltb teqb_spec tltb_total). Qed.
+
+  Theorem C10_connected_reachable : forall s (g : gstate),
+    reachable teqb tltb s g -> directed (sp g) = false ->
+    exists cs, connected_components teqb g = Ok cs /\
+               is_component_partition (g_nodes g) (g_connected g) cs.
+  Proof. intros s g R. exact (connected_components_wf teqb tltb teqb_spec tltb_total g (C10_reachable_WF s g R)). Qed.
+
+  Theorem C10_count_wf : forall (g : gstate),
+    WF g -> directed (sp g) = false ->
+    exists cs, number_of_connected_components teqb g = Ok (length cs) /\
+               is_component_partition (g_nodes g) (g_connected g) cs.
+  Proof. exact (number_of_connected_components_wf teqb tltb teqb_spec tltb_total). Qed.
+
+  Theorem C10_node_component_wf : forall (g : gstate) x,
+    WF g -> directed (sp g) = false ->
+    (In x (g_nodes g) ->
+       exists s, node_connected_component teqb g x = Ok s /\ NoDup s /\
+                 (forall y, In y s <-> g_connected g x y)) /\
+    (~ In x (g_nodes g) -> node_connected_component teqb g x = Err NodeNotFound).
+  Proof. exact (node_component_wf teqb tltb teqb_spec tltb_total). Qed.
+
+  (* ---- weakly_connected_components ---- *)
+  Theorem C10_weak_wf : forall (g : gstate),
+    WF g -> directed (sp g) = true ->
+    exists cs, weakly_connected_components teqb g = Ok cs /\
+               is_component_partition (g_nodes g) (g_connected g) cs.
+  Proof. exact (weakly_connected_components_wf teqb tltb teqb_spec tltb_total). Qed.
+
+  Theorem C10_weak_reachable : forall s (g : gstate),
+    reachable teqb tltb s g -> directed (sp g) = true ->
+    exists cs, weakly_connected_components teqb g = Ok cs /\
+               is_component_partition (g_nodes g) (g_connected g) cs.
+  Proof. intros s g R. exact (weakly_connected_components_wf teqb tltb teqb_spec tltb_total g (C10_reachable_WF s g R)). Qed.
+
+  (* ---- strongly_connected_components, for EVERY neighbour iteration order that permutes
+     each successor set (the one remaining hypothesis: it is about the hash iteration order,
+     not about the graph) ---- *)
+  Theorem C10_scc_wf : forall (ord : list T -> list T) (g : gstate),
+    (forall l x, In x (ord l) <-> In x l) ->
+    WF g -> directed (sp g) = true ->
+    exists cs, strongly_connected_components teqb ord g = Ok cs /\
+               is_component_partition (g_nodes g) (g_strongly g) cs.
+  Proof. exact (strongly_connected_components_wf teqb tltb teqb_spec tltb_total). Qed.
+
+  Theorem C10_scc_reachable : forall (ord : list T -> list T) s (g : gstate),
+    (forall l x, In x (ord l) <-> In x l) ->
+    reachable teqb tltb s g -> directed (sp g) = true ->
+    exists cs, strongly_connected_components teqb ord g = Ok cs /\
+               is_component_partition (g_nodes g) (g_strongly g) cs.
+  Proof.
+    intros ord s g Hord R.
+    exact (strongly_connected_components_wf teqb tltb teqb_spec tltb_total ord g Hord (C10_reachable_WF s g R)).
+  Qed.
+
+  (* ---- bfs_equal_size_partitions returns for every k >= 1 ---- *)
+  Theorem C10_equal_size_total_wf : forall (g : gstate) k,
+    WF g -> 1 <= k -> exists ps, bfs_equal_size_partitions g k = Ok ps.
+  Proof. exact (equal_size_total_wf teqb tltb). Qed.
+  (* a component partition is unique: two partitions of the node list by the same relation
+     have the same classes (as sets) *)
+  Theorem C10_partition_unique : forall (nodes : list T) (rel : T -> T -> Prop) cs1 cs2,
+    is_component_partition nodes rel cs1 -> is_component_partition nodes rel cs2 ->
+    forall c1, In c1 cs1 -> exists c2, In c2 cs2 /\ forall y, In y c1 <-> In y c2.
+  Proof. exact (partition_unique (T:=T)). Qed.
+
+  (* hence the strong components do not depend on the neighbour iteration order (a per-case
+     flag of the Run module, now a theorem), and for the two orders the Run module evaluates -
+     insertion order and its reverse - no hypothesis on the order is left *)
+  Theorem C10_scc_order_independent : forall (ord1 ord2 : list T -> list T) (g : gstate) cs1 cs2,
+    (forall l x, In x (ord1 l) <-> In x l) -> (forall l x, In x (ord2 l) <-> In x l) ->
+    WF g ->
+    strongly_connected_components teqb ord1 g = Ok cs1 ->
+    strongly_connected_components teqb ord2 g = Ok cs2 ->
+    forall c1, In c1 cs1 -> exists c2, In c2 cs2 /\ forall y, In y c1 <-> In y c2.
+  Proof. exact (scc_order_independent teqb tltb teqb_spec tltb_total). Qed.
+
+  Theorem C10_scc_run_orders : forall (g : gstate),
+    WF g -> directed (sp g) = true ->
+    (exists cs, strongly_connected_components teqb (fun l => l) g = Ok cs /\
+                is_component_partition (g_nodes g) (g_strongly g) cs) /\
+    (exists cs, strongly_connected_components teqb (@rev T) g = Ok cs /\
+                is_component_partition (g_nodes g) (g_strongly g) cs).
+  Proof. exact (scc_run_orders teqb tltb teqb_spec tltb_total). Qed.
+End C10_end_to_end.
